@@ -115,6 +115,7 @@ func runC18(r *Run) {
 	for h := 0; h < 2*n; h++ {
 		c18AfterFailure(r, h)
 		c18FailedReconnect(r, h)
+		c18ErrorDuringCut(r, h)
 	}
 }
 
@@ -870,4 +871,111 @@ func c18FailedReconnect(r *Run, h int) {
 		r.Violation("failed-reconnect", cs, fmt.Sprintf("Connected()=%v, row not updated after 3s", a.Connected()), "the committed change in the cache", true,
 			"after a reconnect attempt that failed while applying the held-back notifications the client does not resynchronise", "")
 	}
+}
+
+// c18ErrorDuringCut: the client's own reaction to a cache error (handleClientErrors disconnects in order to
+// resynchronise) meets a loss of the connection from outside. The proxy replaces a notification by one that
+// cannot be applied (a modification of a row the client does not hold) and closes the session a moment
+// later, several times in a row: whichever of the two goroutines moves first, the client must come back,
+// reads must return at once and committed changes reach the cache.
+func c18ErrorDuringCut(r *Run, h int) {
+	rng := r.Rng
+	ts := c18Schema()
+	rig, err := newRig(ts)
+	if err != nil {
+		return
+	}
+	defer rig.Close()
+	px, err := newProxy(rig.sock)
+	if err != nil {
+		return
+	}
+	defer px.Close()
+	ctx, cancel := ctxT(60 * time.Second)
+	defer cancel()
+	row := pairRow(0)
+	row["key"] = VA(AS("r1"))
+	rig.im.transact([]OperationJ{{Op: "insert", Table: "Pair", UUID: mkUUID(1), Row: row}}, nil)
+	writer, _, err := rig.newClient(rig.endpoint())
+	if err != nil || writer.Connect(ctx) != nil {
+		return
+	}
+	defer writer.Close()
+	method := monitorMethods[1+rng.Intn(2)] // (update2 notifications)
+	var mu sync.Mutex
+	armed, injected := false, 0
+	delay := time.Duration(rng.Intn(3)) * 300 * time.Microsecond
+	px.rewrite = func(session int, toClient bool, raw json.RawMessage) json.RawMessage {
+		if !toClient {
+			return raw
+		}
+		var msg struct {
+			Method string            `json:"method"`
+			Params []json.RawMessage `json:"params"`
+		}
+		if json.Unmarshal(raw, &msg) != nil || msg.Method != "update2" || len(msg.Params) != 2 {
+			return raw
+		}
+		mu.Lock()
+		defer mu.Unlock()
+		if !armed {
+			return raw
+		}
+		armed = false
+		injected++
+		go func() { time.Sleep(delay); px.cutNow() }()
+		return json.RawMessage(fmt.Sprintf(`{"method":"update2","params":[%s,{"Pair":{"%s":{"modify":{"key":"zz"}}}}],"id":null}`, msg.Params[0], mkUUID(4343)))
+	}
+	a, adb, err := rig.newClient(px.endpoint(), client.WithReconnect(2*time.Second, backoff.NewConstantBackOff(2*time.Millisecond)))
+	if err != nil || a.Connect(ctx) != nil {
+		return
+	}
+	defer a.Close()
+	if _, err := a.Monitor(ctx, &client.Monitor{Method: method, Tables: []client.TableMonitor{{Table: "Pair"}}, LastTransactionID: "00000000-0000-0000-0000-000000000000"}); err != nil {
+		return
+	}
+	cs := map[string]interface{}{"run": h, "method": method, "cut_after_us": delay.Microseconds()}
+	r.Case("error-during-cut", fmt.Sprint(h, method, delay))
+	for round := 0; round < 4; round++ {
+		mu.Lock()
+		armed = true
+		mu.Unlock()
+		k := int64(100*h + round + 1)
+		_, _ = writer.Transact(ctx, OperationJ{Op: "update", Table: "Pair", Where: byUUID(mkUUID(1)), Row: pairRow(k)}.toOvs())
+		// the client comes back and catches up
+		got := make(chan bool, 1)
+		go func() {
+			ok := false
+			for try := 0; try < 1200 && !ok; try++ {
+				m := adb.NewModel("Pair", mkUUID(1), nil)
+				gctx, gc := ctxT(time.Second)
+				if a.Get(gctx, m) == nil {
+					_, rowNow := adb.RowOf("Pair", m)
+					ok = rowNow["n"] != nil && rowNow["n"].K == 'a' && rowNow["n"].A.I == k
+				}
+				gc()
+				if !ok {
+					time.Sleep(5 * time.Millisecond)
+				}
+			}
+			got <- ok
+		}()
+		select {
+		case ok := <-got:
+			if !ok {
+				cs["round"] = round
+				r.Violation("error-during-cut", cs, fmt.Sprintf("Connected()=%v, the committed change is not in the cache after 6s", a.Connected()), "the committed change in the cache", true,
+					"after a cache error that coincided with the loss of the connection the client does not resynchronise", "")
+				return
+			}
+		case <-time.After(20 * time.Second):
+			cs["round"] = round
+			r.Violation("error-during-cut", cs, "reads with a 1s context have not returned for 20s", "answers", true,
+				"after a cache error that coincided with the loss of the connection the client's calls no longer return", "")
+			return
+		}
+	}
+	mu.Lock()
+	cs["notifications_replaced"] = injected
+	mu.Unlock()
 }
